@@ -420,9 +420,9 @@ func main() {
 	}
 
 	stM := ctx.NewStream("match", "Gojq.Regex.funcMatch / mkMatches / Match.toJV / matchesOK (Model/Regex.lean) = funcMatch's byte->code-point conversion and object construction",
-		"[match($re; $flags)] through the public API vs the model fed with Go regexp's FindAllStringSubmatchIndex/SubexpNames for the syntax compileRegexp builds; subjects: every string over {a,b,A,é,漢,😀,U+0301,LF,space} up to length 3 (4 thorough; the longest length subsampled: a third in quick, a sixth in thorough) x hand-picked + random grammar regexes x flag sets among null,g,i,gi,m,gm,ig; random subjects of length up to 14; 42 cases on invalid UTF-8; distinct = distinct implementation answers")
+		"[match($re; $flags)] through the public API vs the model fed with Go regexp's FindAllStringSubmatchIndex/SubexpNames for the syntax compileRegexp builds; subjects: every string over {a,b,A,é,漢,😀,U+0301,LF,space} up to length 3 (4 thorough; the longest length subsampled: a third in quick, a sixth in thorough) x hand-picked + random grammar regexes x flag sets among null,g,i,gi,m,gm,ig; random subjects of length up to 14; 42 cases on invalid UTF-8; distinct = distinct implementation answers (per chunk, as for `builtin`)")
 	stB := ctx.NewStream("builtin", "Gojq.Regex.{test,capture,scan,splits,split2,sub,gsub,capturesKvs,sliceStr} (Model/Regex.lean) = builtin.jq's definitions over the match list + funcCaptures",
-		"test, [capture], [scan], [splits], split/2, [sub], [gsub] through the public API vs the model's folds over the same raw engine answer; sub/gsub with 5 replacement filters (constant, .name, two-output generator, sometimes-empty generator, interpolation), on the regex and on the regex wrapped in (?<zz>…); distinct = distinct implementation answers")
+		"test, [capture], [scan], [splits], split/2, [sub], [gsub] through the public API vs the model's folds over the same raw engine answer; sub/gsub with 5 replacement filters (constant, .name, two-output generator, sometimes-empty generator, interpolation), on the regex and on the regex wrapped in (?<zz>…); distinct = distinct implementation answers (counted per chunk of 1M lines and summed; quick is one chunk)")
 	orc := ctx.NewOracle("laws", "per (subject, regex, flags): 9 laws evaluated as jq booleans on the real code — offsets (slice by offset/length returns string, for matches and captures), ordered, first (non-global match = first global match), test, scan, splits (interleave rebuilds subject, split/2 agrees), gsubself, subself, capture; distinct = distinct triples whose global match list is non-empty")
 	e.term = ctx.NewOracle("termination", "every builtin run of the `builtin`/`match` streams under a deterministic VM step budget of 3000*(code points+4); a budget overrun is a violation; distinct = distinct (subject, regex, flags) triples")
 
@@ -458,7 +458,7 @@ func main() {
 	}
 
 	flush := func(force bool) {
-		if force || len(linesB) > 300000 {
+		if force || len(linesB) > 1000000 {
 			ctx.RunStream(stM, linesM, implM)
 			ctx.RunStream(stB, linesB, implB)
 			linesM, implM, linesB, implB = nil, nil, nil, nil
